@@ -556,6 +556,10 @@ func ruleDecompAgree(r *Run) {
 					continue
 				}
 			}
+			// a configurable default: an option field validated by NewMux to name a registered codec
+			if p.validatedCodecKey(o) {
+				continue
+			}
 			ctOK = false
 		}
 	}
@@ -650,6 +654,9 @@ func ruleCodecLookupTotal(r *Run) {
 				}
 				def, isC := constString(c.Call.Args[2])
 				switch {
+				case !isC && p.validatedCodecKey(c.Call.Args[2]):
+					// an option field that NewMux refuses to accept unless a codec is registered under it
+					good = true
 				case !isC:
 					why = "the default offer handed to negotiateContentType is not a constant (" + describeValue(c.Call.Args[2]) + "): when nothing is negotiated the lookup key is whatever the request sent"
 				case !builtin[def]:
@@ -720,6 +727,109 @@ func (p *Program) stringArg(c ssa.CallInstruction, fallback int) ssa.Value {
 	}
 	if fallback < len(c.Common().Args) {
 		return c.Common().Args[fallback]
+	}
+	return nil
+}
+
+// validatedCodecKey: every origin of v is a load of a muxOptions string field F such that NewMux's region looks
+// codecs[F] up in the comma-ok form and returns an error when the key is absent (so that, the options being
+// read-only after NewMux, codecs[F] is present whenever a Mux exists).
+func (p *Program) validatedCodecKey(v ssa.Value) bool {
+	codecs := p.StructField("muxOptions", "codecs")
+	nm := p.Func("NewMux")
+	if codecs == nil || nm == nil {
+		return false
+	}
+	os := p.origins(v, originOpts{})
+	if len(os) == 0 {
+		return false
+	}
+	for _, o := range os {
+		f := loadedField(o)
+		if f == nil || p.fieldOwner(f) != "muxOptions" {
+			return false
+		}
+		validated := false
+		p.eachInstrR(nm, func(in ssa.Instruction) {
+			lk, ok := in.(*ssa.Lookup)
+			if !ok || !lk.CommaOk {
+				return
+			}
+			onCodecs := false
+			for _, mo := range p.origins(lk.X, originOpts{}) {
+				if loadsField(mo, codecs) {
+					onCodecs = true
+				}
+			}
+			byField := false
+			for _, io := range p.origins(lk.Index, originOpts{}) {
+				if loadsField(io, f) {
+					byField = true
+				}
+			}
+			if !onCodecs || !byField {
+				return
+			}
+			// a helper's verdict must be looked at by its caller
+			if h := in.Parent(); h != nm {
+				for _, st := range p.helpers().sites[h] {
+					checked := false
+					if sv, ok := st.(ssa.Value); ok && sv.Referrers() != nil {
+						for _, ref := range *sv.Referrers() {
+							if bo, ok := ref.(*ssa.BinOp); ok && (bo.Op == token.NEQ || bo.Op == token.EQL) && (isNilConst(bo.X) || isNilConst(bo.Y)) {
+								checked = true
+							}
+						}
+					}
+					if !checked {
+						return
+					}
+				}
+			}
+			// the absent edge returns an error
+			okv := extractOfValue(lk, 1)
+			if okv == nil || okv.Referrers() == nil {
+				return
+			}
+			for _, ref := range *okv.Referrers() {
+				ifi, isIf := ref.(*ssa.If)
+				if !isIf {
+					continue
+				}
+				absent := ifi.Block().Succs[1]
+				for hop := 0; hop < 3 && absent != nil; hop++ {
+					for _, x := range absent.Instrs {
+						if rt, ok := x.(*ssa.Return); ok {
+							for _, rv := range rt.Results {
+								if isErrorType(rv.Type()) && isFreshError(rv) {
+									validated = true
+								}
+							}
+						}
+					}
+					if len(absent.Succs) == 1 {
+						absent = absent.Succs[0]
+					} else {
+						absent = nil
+					}
+				}
+			}
+		})
+		if !validated {
+			return false
+		}
+	}
+	return true
+}
+
+func extractOfValue(v ssa.Value, idx int) ssa.Value {
+	if v.Referrers() == nil {
+		return nil
+	}
+	for _, ref := range *v.Referrers() {
+		if ex, ok := ref.(*ssa.Extract); ok && ex.Index == idx {
+			return ex
+		}
 	}
 	return nil
 }
